@@ -38,3 +38,8 @@ CLAIMS["C16"] = (
     "Generated non-square even/odd stacks, doses in any order (incl. 0), noise and plane waves, array (both orders) and file input, dose as list/array/file; the 2-D DFT of every output image is compared with exp(-dose/(2(0.245 f^-1.665+2.81))) times the input's DFT. Held on everything explored.",
     "Trusts numpy.fft and the closed-form constants quoted in the property; float32 paths compared at 2e-5.",
 )
+CLAIMS["C05"] = (
+    "model-based property test over operation histories (Hypothesis-generated op sequences interpreted against the real Motl and a matrix/vector model, compared after every step)",
+    "Generated particle tables and histories of up to 6 pose operations; after every step complete positions and orientation matrices are compared with an explicit model (p*f, p+Rs, RQ, z-mirror), non-pose fields and row order must be untouched, update_coordinates must leave integral x,y,z and |shift|<=0.5, double flip must restore all fields. Held on everything explored.",
+    "Trusts the harness rotation algebra (explicit matrices); orientation tolerance 1e-6, position tolerance 1e-9 relative plus shift-propagated slack.",
+)
